@@ -91,6 +91,8 @@ type FnCtx struct {
 	cntFuncs    map[string]*cntInfo
 	compRef     map[string]bool
 	entryAssumes []*Clause
+	errGlobals   []string
+	lemmaVCs     []lemmaVC
 	specErrors    []string
 	callbackCalls []string
 	externUsed    map[string]bool
@@ -422,9 +424,7 @@ func (tr *FnCtx) loadFrom(st *State, p *Val, t types.Type) *Val {
 				v.A = append(v.A, tr.cur(st, c))
 			}
 		case LGlobal:
-			for _, a := range atoms {
-				v.A = append(v.A, tr.declare("G."+l.ID+a.Path, a.Sort))
-			}
+			v.A = tr.globalAtoms(l.ID, t)
 		}
 	} else {
 		addr := p.one()
@@ -1435,4 +1435,25 @@ func (tr *FnCtx) runDefers(st *State, b *ssa.BasicBlock) {
 		st.Comps = m.Comps
 		st.Gen = m.Gen
 	}
+}
+
+// globalAtoms: package-level variables are treated as immutable constants. Variables of type error
+// (sentinel errors created by errors.New in package initialisation) are non-nil and pairwise distinct.
+func (tr *FnCtx) globalAtoms(id string, t types.Type) []string {
+	var out []string
+	for _, a := range tr.W.flatten(t) {
+		name := "G." + id + a.Path
+		first := !tr.decl[sym(name)]
+		s := tr.declare(name, a.Sort)
+		out = append(out, s)
+		if first && types.Identical(t, types.Universe.Lookup("error").Type()) {
+			tr.emit("(assert (not (= " + s + " 0)))")
+			for _, o := range tr.errGlobals {
+				tr.emit("(assert (not (= " + s + " " + o + ")))")
+			}
+			tr.errGlobals = append(tr.errGlobals, s)
+			tr.externUsed["package-level error variables are immutable, non-nil and pairwise distinct"] = true
+		}
+	}
+	return out
 }
